@@ -297,6 +297,7 @@ func checkC16(c *Ctx) {
 	r.Rule("C16.b", "the only file write gets the complete translation; no other file-mutating API", 3)
 	r.Rule("C16.c", "single recover site, non-zero exit, deferred first in the success branch, no goroutines", 5)
 	r.Rule("C16.d", "hand-written loops: exit at end of input and progress", 30)
+	r.Rule("C16.g", "a recursive pass never applies the recursion twice to the same child on one path (time would be exponential in the nesting depth)", 100)
 	r.Rule("C16.e1", "visited-set consistency: if one name-unfolding arm of a traversal is guarded by the visited set, all are", 2)
 	r.Rule("C16.e2", "resolver unfolding is guarded by a depth counter (compared with a constant before a no-return call, incremented in the knot)", 1)
 
@@ -428,7 +429,20 @@ func checkDiagnostics(c *Ctx, f *FC) {
 	} else {
 		r.Undecided("C16.c", "transpileOne", "definition", "fc", "anchor function not found")
 	}
+	checkNoDuplicateRecursion(c, f)
 	checkOnParseErrorForm(c, f, "C16.c")
+	// every command-line argument reaches transpileFiles: none is dropped, expanded or reordered before it is read (a missing file must end in a diagnostic)
+	c.expectNF(f, "C16.a", "main", []string{"seq[if(slice.IsEmpty(slice.Tail(sys.Args())), seq[printUsage()], seq[transpileFiles(slice.Tail(sys.Args()))])]"},
+		"the arguments after the program name are handed to transpileFiles as they are")
+	var asp []termSpec
+	for _, t := range c14Specs["pkg/sys"] {
+		if t.fn == "Args" {
+			asp = append(asp, t)
+		}
+	}
+	if len(asp) > 0 {
+		checkTermSpecsOpt(c, "C16.a", "pkg/sys", asp, false)
+	}
 	// recover callers, os.Exit arguments, go statements
 	var recoverers, exits []string
 	badExit := ""
